@@ -124,3 +124,80 @@ Theorem C15_parse_build_response : forall a,
     bodyb p = Grammar.expected_body (expected_response_headers a) (sa_body a).
 Proof. exact parse_build_response. Qed.
 Print Assumptions C15_parse_build_response.
+
+(* ---------------------------------------------------------------------------------------------- *)
+(* parse, re-serialise, parse again                                                                *)
+
+(* Every well-formed request on the wire (abstract syntax [message] of Http/ParserFacts.v: any
+   method/target/version, header names in any spelling and order, Content-Length framing or ANY
+   chunk layout with hex sizes in any case, leading zeros, extensions and trailers — the empty
+   chunked body included) parses to a COMPLETE message p; build() re-serialises p to bytes that parse
+   to a COMPLETE message with the same method, version, path, header map (names as spelled, values,
+   order), decoded body and framing flag, and nothing left over.
+   Guards, all visible: header names pairwise different case-insensitively (a dict keeps one);
+   method and version non-empty (build() asserts them); the path does not start with "//" (the
+   rebuilt origin-form target would be read as a network-path reference) and has no SP/CR; a
+   non-empty body is announced by the canonical decimal Content-Length (a parsed "05" is rebuilt
+   as "5": same number, other spelling). *)
+Theorem C15_rebuild_stable_request : forall ua msg m t v u,
+  message_ok DEFAULT_ALLOWED_URL_SCHEMES msg -> m_start msg = ReqLine m t v u ->
+  NoDup (lkeys (all_hdrs msg)) -> m <> [] -> v <> [] ->
+  (u_remainder u = None \/ u_remainder u = Some [] \/
+   exists r, u_remainder u = Some (SLASH :: r) /\ tok (SLASH :: r) /\ match r with x :: _ => x <> SLASH | [] => True end) ->
+  canonical_length false msg ->
+  exists p raw p',
+    parse (new_parser REQUEST_PARSER) (render msg) = Ok p /\ state p = COMPLETE /\
+    build ua p [] false None = Ok raw /\
+    parse (new_parser REQUEST_PARSER) raw = Ok p' /\ state p' = COMPLETE /\ buffer p' = None /\
+    method p' = method p /\ version p' = version p /\ path p' = Some (path0 p) /\
+    headers p' = headers p /\ bodyb p' = bodyb p /\ is_chunked_encoded p' = is_chunked_encoded p.
+Proof. exact rebuild_stable_request. Qed.
+Print Assumptions C15_rebuild_stable_request.
+
+(* The same for responses and build_response().  Extra guards: the status code is the canonical
+   decimal of a number (build_response goes through int()), and an empty body announced by
+   Content-Length is announced as "0". *)
+Theorem C15_rebuild_stable_response : forall msg v c rs z,
+  message_ok DEFAULT_ALLOWED_URL_SCHEMES msg -> m_start msg = StatusLine v c rs ->
+  NoDup (lkeys (all_hdrs msg)) -> v <> [] -> c <> [] ->
+  int10 c = Ok z -> dec_of_Z z = c ->
+  canonical_length true msg ->
+  exists p raw p',
+    parse (new_parser RESPONSE_PARSER) (render msg) = Ok p /\ state p = COMPLETE /\
+    build_response p = Ok raw /\
+    parse (new_parser RESPONSE_PARSER) raw = Ok p' /\ state p' = COMPLETE /\ buffer p' = None /\
+    version p' = version p /\ code p' = code p /\ or_empty (reason p') = or_empty (reason p) /\
+    headers p' = headers p /\ bodyb p' = bodyb p /\ is_chunked_encoded p' = is_chunked_encoded p.
+Proof. exact rebuild_stable_response. Qed.
+Print Assumptions C15_rebuild_stable_response.
+
+(* The same two facts for ANY parser state with these (decidable) properties, whatever input
+   produced it — e.g. a state a plugin has edited with add_header / update_body. *)
+Theorem C15_rebuild_stable_request_state : forall ua p m v hs,
+  ty p = REQUEST_PARSER ->
+  method p = Some m -> m <> [] -> tok m ->
+  version p = Some v -> v <> [] -> ~ In CR v ->
+  (truthy (path p) = false \/
+   exists t, path p = Some (SLASH :: t) /\ tok (SLASH :: t) /\ match t with x :: _ => x <> SLASH | [] => True end) ->
+  headers p = lift_headers hs -> wfhP hs -> framing_consistent p hs ->
+  exists raw p', build ua p [] false None = Ok raw /\
+    parse (new_parser REQUEST_PARSER) raw = Ok p' /\
+    state p' = COMPLETE /\ buffer p' = None /\
+    method p' = Some m /\ version p' = Some v /\ path p' = Some (path0 p) /\ host p' = None /\
+    headers p' = headers p /\ bodyb p' = bodyb p /\ is_chunked_encoded p' = is_chunked_encoded p.
+Proof. exact rebuild_stable_request_state. Qed.
+Print Assumptions C15_rebuild_stable_request_state.
+
+Theorem C15_rebuild_stable_response_state : forall p c z v hs,
+  ty p = RESPONSE_PARSER ->
+  code p = Some c -> c <> [] -> int10 c = Ok z -> dec_of_Z z = c ->
+  version p = Some v -> v <> [] -> tok v ->
+  ~ In CR (or_empty (reason p)) ->
+  headers p = lift_headers hs -> wfhP hs -> framing_consistent_resp p hs ->
+  exists raw p', build_response p = Ok raw /\
+    parse (new_parser RESPONSE_PARSER) raw = Ok p' /\
+    state p' = COMPLETE /\ buffer p' = None /\
+    version p' = Some v /\ code p' = Some c /\ or_empty (reason p') = or_empty (reason p) /\
+    headers p' = headers p /\ bodyb p' = bodyb p /\ is_chunked_encoded p' = is_chunked_encoded p.
+Proof. exact rebuild_stable_response_state. Qed.
+Print Assumptions C15_rebuild_stable_response_state.
